@@ -16,7 +16,7 @@ FLOORS = os.path.join(VERIF, "floors.json")
 
 def load_floors():
     """Minimum number of decided instances per rule, calibrated on the reference tree
-    (tools/calibrate_floors.py: 60% of the count confirmed there).  A rule that decides
+    (tools/calibrate_floors.py: 40% of the count confirmed there).  A rule that decides
     fewer instances has lost its anchors: ANALYSIS-ERROR, never a silent pass."""
     try:
         with open(FLOORS) as f:
